@@ -231,3 +231,52 @@ def rw_map_ctor_ok(toks, counts):
         n += 1
     _count(counts, "R11", n)
     return toks
+
+
+def rw_str_index(toks, counts, var, f_range="str_range", f_from="str_from"):
+    """R6b: range indexing of the &str (or byte slice) variable VAR
+            &VAR[a..b] -> str_range(VAR, a, b)     &VAR[..b] -> str_range(VAR, 0, b)     &VAR[a..] -> str_from(VAR, a)
+    The index expressions are kept verbatim."""
+    n = 0
+    while True:
+        si = sig_idx(toks)
+        hit = None
+        for a in range(len(si) - 3):
+            if toks[si[a]].text == "&" and toks[si[a + 1]].text == var and toks[si[a + 2]].text == "[":
+                o = si[a + 2]
+                c = match_close(toks, o)
+                # top-level `..`
+                d = 0
+                k = None
+                for i in range(o + 1, c):
+                    t = toks[i]
+                    if t.kind == "p":
+                        if t.text in OPEN:
+                            d += 1
+                        elif t.text in ")]}":
+                            d -= 1
+                    if d == 0 and text(toks[i:i + 1]) == "..":
+                        k = (i, i + 1); break
+                    if d == 0 and t.text == "." and i + 1 < c and toks[i + 1].text == "." and (i + 2 >= c or toks[i + 2].text != "."):
+                        k = (i, i + 2); break
+                if k is None:
+                    continue
+                lo = text(toks[o + 1:k[0]]).strip()
+                hi = text(toks[k[1]:c]).strip()
+                if hi.startswith("="):
+                    raise LostAnchor("inclusive range index on %s" % var)
+                if hi:
+                    new = "%s(%s, %s, %s)" % (f_range, var, lo or "0", hi)
+                else:
+                    new = "%s(%s, %s)" % (f_from, var, lo or "0")
+                hit = (si[a], c + 1, new)
+                break
+        if not hit:
+            break
+        s, e, new = hit
+        toks = toks[:s] + relex(new) + toks[e:]
+        n += 1
+    if n == 0:
+        raise LostAnchor("no range indexing of `%s` found" % var)
+    _count(counts, "R6", n)
+    return toks
